@@ -74,8 +74,13 @@ type Identity struct {
 
 // BuildSubjectAltNameExtension builds the SAN extension for the certificate.
 func BuildSubjectAltNameExtension(hosts string) (*pkix.Extension, error) {
+	return buildSubjectAltNameExtension(strings.Split(hosts, ","))
+}
+
+// buildSubjectAltNameExtension builds the SAN extension with exactly one entry per given host.
+func buildSubjectAltNameExtension(hosts []string) (*pkix.Extension, error) {
 	ids := []Identity{}
-	for _, host := range strings.Split(hosts, ",") {
+	for _, host := range hosts {
 		if ipa, _ := netip.ParseAddr(host); ipa.IsValid() {
 			// Use the 4-byte representation of the IP address when possible.
 			ip := ipa.AsSlice()
